@@ -22,6 +22,9 @@ pub fn text_replacements() -> Vec<String> {
     ]
 }
 
+/// Largest input the property talks about.
+pub const MAX_INPUT: usize = 65535;
+
 pub type FrameFn = fn(&[u8]) -> Vec<u8>;
 
 #[derive(Clone)]
@@ -90,12 +93,15 @@ impl Space {
             ),
             Space::Trunc { seed_name, seed } => format!("all {} prefixes of seed {}", seed.len() + 1, seed_name),
             Space::Sub1 { seed_name, seed } => format!("{} positions x 256 values of seed {}", seed.len(), seed_name),
-            Space::Sub2 { seed_name, seed, positions } => format!(
-                "all pairs of {} positions (of {}) x 6x6 values of seed {}",
-                positions.len(),
-                seed.len(),
-                seed_name
-            ),
+            Space::Sub2 { seed_name, seed, positions } => {
+                let which = if positions.len() == seed.len() {
+                    "all positions".to_string()
+                } else {
+                    let head = positions.iter().enumerate().take_while(|(i, p)| *i == **p).count();
+                    format!("positions 0..{} and {}..{}", head, seed.len() - (positions.len() - head), seed.len())
+                };
+                format!("all pairs of {} positions ({which}) x 6x6 values {{00,01,7f,80,fe,ff}} of seed {} ({} bytes)", positions.len(), seed_name, seed.len())
+            }
             Space::Rep { alphabet, lens, frame } => format!(
                 "units A^1 u A^2 (|A|={}) repeated to lengths {:?} in frame {}",
                 alphabet.len(),
@@ -183,12 +189,22 @@ impl Space {
                     let u = u - k;
                     vec![alphabet[(u / k) as usize], alphabet[(u % k) as usize]]
                 };
-                let n = lens[li];
-                let mut body = Vec::with_capacity(n);
-                while body.len() < n {
-                    body.push(unit[body.len() % unit.len()]);
+                // the property quantifies over inputs up to 64 KiB: shrink the body until the
+                // framed input fits (token frames expand, binary frames add a header)
+                let mut n = lens[li];
+                for _ in 0..4 {
+                    let mut body = Vec::with_capacity(n);
+                    while body.len() < n {
+                        body.push(unit[body.len() % unit.len()]);
+                    }
+                    *out = (frame.wrap)(&body);
+                    if out.len() <= MAX_INPUT {
+                        break;
+                    }
+                    n = (n as u64 * MAX_INPUT as u64 / out.len() as u64) as usize;
+                    n = n.saturating_sub(1);
                 }
-                *out = (frame.wrap)(&body);
+                out.truncate(MAX_INPUT);
             }
             Space::List { items, .. } => out.extend_from_slice(&items[idx as usize]),
         }
